@@ -19,6 +19,19 @@ def run(ctx):
     P.L7_builtins(ctx, "C07.L7", core)
     from rules import panics
     panics.driver_text_untouched(ctx, "C07.R8", [core, ctx.cli, ctx.wasm])
+    # the list and record rules are one rule renamed: the formatter lays both out with the same code (trailing comma, comments before the bracket)
+    import json as json_
+    if "list" in G.rules and "record" in G.rules:
+        def rn(e):
+            if isinstance(e, dict):
+                if e.get("k") == "ident" and e.get("v") == "list_item":
+                    return dict(e, v="record_item")
+                if e.get("k") == "str" and e.get("v") in ("[", "]", "[]"):
+                    return dict(e, v={"[": "{", "]": "}", "[]": "{}"}[e["v"]])
+                return {k_: rn(v_) for k_, v_ in e.items()}
+            return e
+        same_ = json_.dumps(rn(G.expr("list")), sort_keys=True) == json_.dumps(G.expr("record"), sort_keys=True) and G.ty("list") == G.ty("record")
+        ctx.inst("C07.R8", "grammar#list==record", same_, "`list` is `record` with [ ] and list_item for { } and record_item: %s (what the shared multi-line layout prints for one must be accepted for the other)" % same_, "blots-core/src/grammar.pest")
     from rules import c10
     ctx.rule("C07.L12", "the parser binds as the documented table says (levels, members, associativity): the printers' parenthesisation rules are written against that table, so a parser that groups or orders operators differently re-reads unparenthesised output as another tree", floor=30)
     c10.CRATE[0] = core
